@@ -93,6 +93,7 @@ func (*Renderer).renderString
   uses treeInvDef
   requires rawAllowed() || treeInv()
 func RenderAttributes
+  nilable filter
   uses treeInvDef
   requires node != nil && treeInv()
   modifies nothing
